@@ -161,14 +161,15 @@ pub fn cmd_sizes(seed: u64, n: usize, out: &mut dyn Write, extra: &[String]) {
         for (k, st) in &ties { prog_case(j, fam, *k, st, out); j += 1; }
     }
     // sanity stream: random programs of growing size
-    if !only.is_empty() { return; }
+    // `family=<name>` restricts the run to those families (no random programs); `family=none` = random programs only
+    if !only.is_empty() && !only.iter().any(|o| o == "none") { return; }
     let mut rng = Rng::new(seed);
     for i in 0..n {
         let mut r = rng.fork();
         let mut cfg = FunGenCfg::mix(&mut r);
-        // growing node budgets: 10 .. about 10 + 6n
-        cfg.main_size = 10 + 6 * i;
-        cfg.def_size = 8 + 3 * i;
+        // growing node budgets, cycling: main 10 .. 484, other definitions 8 .. 245
+        cfg.main_size = 10 + 6 * (i % 80);
+        cfg.def_size = 8 + 3 * (i % 80);
         let gp = gen_program(&mut r, &cfg);
         if let Some(d) = &dump { std::fs::write(format!("{d}/random_{i:03}.sc"), &gp.text).ok(); }
         match run_stages(&gp.text) {
